@@ -12,6 +12,7 @@ import (
 	"os"
 	"strings"
 	"sync"
+	"sync/atomic"
 	"testing"
 	"time"
 
@@ -21,6 +22,10 @@ import (
 	"google.golang.org/grpc/test/bufconn"
 
 	pb "github.com/godaddy/asherah/server/go/api"
+	"github.com/godaddy/asherah/go/appencryption"
+	"github.com/godaddy/asherah/go/appencryption/pkg/crypto/aead"
+	"github.com/godaddy/asherah/go/appencryption/pkg/kms"
+	"github.com/godaddy/asherah/go/appencryption/pkg/persistence"
 	"github.com/godaddy/asherah/server/go/pkg/server"
 
 	"verif/harness/ev"
@@ -335,7 +340,7 @@ func makeMaterialPart(app *server.AppEncryption, own string) *material {
 
 func TestC19(t *testing.T) {
 	r := ev.Start("C19", "exploration")
-	r.Rule("(1) every request sequence up to length L over {get-session valid / empty id, encrypt, decrypt genuine / foreign-partition / bit-flipped / structurally empty record (4 shapes), empty request}, each followed by end-of-stream, is played through AppEncryption.Session (built by NewAppEncryption from an Options value: memory metastore + static KMS, once without and once with the shared session cache of 2 sessions) on an in-process stream; a reference protocol automaton {uninitialised, initialised, rejected-get-session} gives the expected response class per request, responses are counted per request, panics are recovered per sequence. (2) seeded sequences of length 40 on 8 concurrent streams per round, spread over three partitions (so that cached sessions are shared between streams and evicted while in use), over real gRPC (bufconn) under the race detector, for both server variants, same automaton per stream. Distinct+non-trivial: distinct sequences that reached an initialised session.")
+	r.Rule("(1) every request sequence up to length L over {get-session valid / empty id, encrypt, decrypt genuine / foreign-partition / bit-flipped / structurally empty record (4 shapes), empty request}, each followed by end-of-stream, is played through AppEncryption.Session (built by NewAppEncryption from an Options value: memory metastore + static KMS, once without and once with the shared session cache of 2 sessions) on an in-process stream; a reference protocol automaton {uninitialised, initialised, rejected-get-session} gives the expected response class per request, responses are counted per request, panics are recovered per sequence. (2) seeded sequences of length 40 on 8 concurrent streams per round, spread over three partitions (so that cached sessions are shared between streams and evicted while in use), over real gRPC (bufconn) under the race detector, for both server variants, same automaton per stream. (3) 8 lock-step streams per round against a server whose SDK caches nothing while the metastore alternates between healthy and failing with a different error text every time: each request gets exactly one response (the right answer or an error response). Distinct+non-trivial: distinct sequences that reached an initialised session.")
 	r.Assume("the server binary's main() is not exercised, only pkg/server; a handler panic under a real grpc.Server kills the process (detected by the check script as a crash)")
 	n := 0
 	Ls := []int{ev.Pick(4, 5), ev.Pick(3, 4)}
@@ -386,6 +391,7 @@ func TestC19(t *testing.T) {
 		// (a handler that already answers sequential streams wrongly would only make lock-step clients wait)
 		concurrentStreams(t, r, false)
 		concurrentStreams(t, r, true)
+		faultyBackendStreams(t, r)
 	}
 	r.Finish(t)
 }
@@ -457,6 +463,148 @@ func concurrentStreams(t *testing.T, r *ev.Run, sess bool) {
 				r.Eval(1)
 				r.Count("grpc_streams", 1)
 				r.Count("grpc_requests", int64(len(kinds)))
+			}()
+		}
+		wg.Wait()
+	}
+}
+
+// ---- concurrent streams over a back end that fails with ever-changing error texts
+
+// flakyStore is a memory metastore whose reads fail, while failing is set, with an error text that is different
+// every time (as real driver errors are: ports, request ids, timestamps).
+type flakyStore struct {
+	appencryption.Metastore
+	failing atomic.Bool
+	n       atomic.Int64
+}
+
+func (f *flakyStore) errNow() error {
+	k := f.n.Add(1)
+	return fmt.Errorf("dial tcp 10.0.%d.%d:%d: i/o timeout (request id %016x)", k%250, (k/250)%250, 30000+k%20000, uint64(k)*0x9e3779b97f4a7c15)
+}
+
+func (f *flakyStore) Load(ctx context.Context, id string, created int64) (*appencryption.EnvelopeKeyRecord, error) {
+	if f.failing.Load() {
+		return nil, f.errNow()
+	}
+	return f.Metastore.Load(ctx, id, created)
+}
+
+func (f *flakyStore) LoadLatest(ctx context.Context, id string) (*appencryption.EnvelopeKeyRecord, error) {
+	if f.failing.Load() {
+		return nil, f.errNow()
+	}
+	return f.Metastore.LoadLatest(ctx, id)
+}
+
+// faultyBackendStreams: 8 lock-step streams per round over real gRPC against a server whose SDK caches nothing, while
+// the metastore alternates between healthy and failing. Every request must get exactly one response: the right
+// answer, or an error response; the process must survive.
+func faultyBackendStreams(t *testing.T, r *ev.Run) {
+	crypto := aead.NewAES256GCM()
+	static, err := kms.NewStatic("thisIsAStaticMasterKeyForTesting", crypto)
+	if err != nil {
+		t.Fatal(err)
+	}
+	defer static.Close()
+	ms := &flakyStore{Metastore: persistence.NewMemoryMetastore()}
+	pol := appencryption.NewCryptoPolicy(appencryption.WithNoCache(), appencryption.WithExpireAfterDuration(24*time.Hour), appencryption.WithRevokeCheckInterval(time.Hour))
+	sf := appencryption.NewSessionFactory(&appencryption.Config{Service: "svc", Product: "prod", Policy: pol}, ms, static, crypto)
+	defer sf.Close()
+	app := server.VerifNewAppEncryptionWithFactory(sf)
+	lis := bufconn.Listen(1 << 20)
+	srv := grpc.NewServer()
+	pb.RegisterAppEncryptionServer(srv, app)
+	go srv.Serve(lis)
+	defer srv.Stop()
+	conn, err := grpc.NewClient("passthrough:///bufnet", grpc.WithContextDialer(func(ctx context.Context, _ string) (net.Conn, error) { return lis.DialContext(ctx) }),
+		grpc.WithTransportCredentials(insecure.NewCredentials()))
+	if err != nil {
+		t.Fatal(err)
+	}
+	defer conn.Close()
+	client := pb.NewAppEncryptionClient(conn)
+	rounds := ev.Pick(4, 60)
+	for round := 0; round < rounds && r.Violations() == 0; round++ {
+		journal(fmt.Sprintf("C19 faulty-backend round %d", round))
+		ms.failing.Store(false)
+		var wg sync.WaitGroup
+		var started sync.WaitGroup
+		started.Add(8)
+		for s := 0; s < 8; s++ {
+			s := s
+			wg.Add(1)
+			go func() {
+				defer wg.Done()
+				ctx, cancel := context.WithTimeout(context.Background(), 60*time.Second)
+				defer cancel()
+				part := fmt.Sprintf("part%d", s%3)
+				st, err := client.Session(ctx)
+				if err != nil {
+					started.Done()
+					r.Violation("c19-grpc-open-failed", err.Error(), nil)
+					return
+				}
+				ask := func(req *pb.SessionRequest, what string) *pb.SessionResponse {
+					if err := st.Send(req); err != nil {
+						r.Violation("c19-grpc-stream-broken", fmt.Sprintf("faulty back end, stream %d round %d: send of %s failed: %v", s, round, what, err), nil)
+						return nil
+					}
+					resp, err := st.Recv()
+					if err != nil {
+						r.Violation("c19-grpc-no-response", fmt.Sprintf("faulty back end, stream %d round %d: no response to %s: %v", s, round, what, err), nil)
+						return nil
+					}
+					r.Count("grpc_requests_faulty_backend", 1)
+					return resp
+				}
+				resp := ask(getSession(part), "get-session")
+				var rec *pb.DataRowRecord
+				pl := []byte(fmt.Sprintf("payload %d/%d", round, s))
+				if resp != nil && !isErr(resp) {
+					if er := ask(encryptReq(pl), "encrypt").GetEncryptResponse(); er != nil {
+						rec = cloneDRR(er.DataRowRecord)
+					}
+				}
+				started.Done()
+				started.Wait() // everybody holds a record written while the back end was healthy
+				if s == 0 {
+					ms.failing.Store(true)
+				}
+				for i := 0; i < 20 && rec != nil; i++ {
+					if s == 0 && i == 12 {
+						ms.failing.Store(false)
+					}
+					var resp *pb.SessionResponse
+					what := "decrypt"
+					if i%3 == 2 {
+						what = "encrypt"
+						resp = ask(encryptReq(pl), what)
+					} else {
+						resp = ask(decryptReq(cloneDRR(rec)), what)
+					}
+					if resp == nil {
+						return
+					}
+					switch {
+					case isErr(resp):
+						r.Count("grpc_error_responses_faulty_backend", 1)
+					case what == "decrypt":
+						if dr := resp.GetDecryptResponse(); dr == nil || !bytes.Equal(dr.Data, pl) {
+							r.Violation("c19-protocol-faulty-backend", fmt.Sprintf("stream %d round %d: decrypt answered with neither the payload nor an error: %v", s, round, resp), nil)
+						}
+					default:
+						if resp.GetEncryptResponse() == nil {
+							r.Violation("c19-protocol-faulty-backend", fmt.Sprintf("stream %d round %d: encrypt answered with neither a record nor an error: %v", s, round, resp), nil)
+						}
+					}
+				}
+				st.CloseSend()
+				if _, err := st.Recv(); err != io.EOF && rec != nil {
+					r.Violation("c19-grpc-extra-response", fmt.Sprintf("faulty back end: expected end of stream, got %v", err), nil)
+				}
+				r.Eval(1)
 			}()
 		}
 		wg.Wait()
